@@ -78,6 +78,7 @@ type Machine struct {
 	guards     []*Term // active vp.SetIf conditions (guarded store writes)
 	marsh      []*marshalled
 	hexNib     map[*Term]*Term // hex character term -> the nibble it encodes
+	curFn      string
 	model      map[*Term]*big.Int // last satisfying assignment of the path condition (nil = none)
 	modelMemo  map[*Term]*Term
 	curRep    *EntryReport
@@ -177,6 +178,11 @@ func (m *Machine) decide(c *Term) bool {
 		alt := append(append([]int(nil), m.decisions...), 0)
 		m.newTasks = append(m.newTasks, alt)
 		m.res.Forks++
+		if m.curRep != nil {
+			m.curMu.Lock()
+			m.curRep.ForkSites[m.curFn]++
+			m.curMu.Unlock()
+		}
 		m.decisions = append(m.decisions, 1)
 		m.addPC(c)
 		return true
